@@ -57,7 +57,7 @@ func nondetUses(p *an.Prog, fn *ssa.Function) []string {
 }
 
 func C16(p *an.Prog, r *an.Report) {
-	r.Explanation = "X1: the call-graph closure of CreateBlindedDestination through the library and go-i2p/crypto contains no nondeterminism source (time.Now, math/rand, crypto/rand, map iteration, goroutines; logging excluded). X2: the day string given to kdf.DeriveBlindingFactor is date.UTC().Format(\"2006-01-02\") of the date parameter and the secret is the secret parameter. X3: the blinded destination is NewKeysAndCert(dest.KeyCertificate, dest.ReceivingPublic, dest.Padding, blinded key) of the same dest. X4: DecryptInnerData evaluated under the assumption that the AEAD open fails reports no success, its success value originates only from the AEAD plaintext, and the slice offsets it reads (ephemeral key [0,32), nonce [32,44), ciphertext [44,n-16), tag [n-16,n)) equal, as affine forms, the order and sizes EncryptInnerLeaseSet2 appends. X5: VerifyBlindedSignature returns the equality of the blinded destination's key with BlindPublicKey(original key, alpha). decrypt(encrypt(x)) = x as a value equality and AEAD tamper rejection are properties of the primitives (trusted). X6: no copy() on the encrypt/decrypt path can truncate (len(dst) >= len(src), relational proof; an X25519 shared secret is trusted to be 32 bytes). X2 also requires the secret to reach the KDF whole. X7: the AEAD seal and open authenticate the same associated data on every path."
+	r.Explanation = "X1: the call-graph closure of CreateBlindedDestination through the library and go-i2p/crypto contains no nondeterminism source (time.Now, math/rand, crypto/rand, map iteration, goroutines; logging excluded). X2: the day string given to kdf.DeriveBlindingFactor is date.UTC().Format(\"2006-01-02\") of the date parameter and the secret is the secret parameter. X3: the blinded destination is NewKeysAndCert(dest.KeyCertificate, dest.ReceivingPublic, dest.Padding, blinded key) of the same dest. X4: DecryptInnerData evaluated under the assumption that the AEAD open fails reports no success, its success value originates only from the AEAD plaintext, and the slice offsets it reads (ephemeral key [0,32), nonce [32,44), ciphertext [44,n-16), tag [n-16,n)) equal, as affine forms, the order and sizes EncryptInnerLeaseSet2 appends. X5: VerifyBlindedSignature returns the equality of the blinded destination's key with BlindPublicKey(original key, alpha). decrypt(encrypt(x)) = x as a value equality and AEAD tamper rejection are properties of the primitives (trusted). X6: no copy() on the encrypt/decrypt path can truncate (len(dst) >= len(src), relational proof; an X25519 shared secret is trusted to be 32 bytes). X2 also requires the secret to reach the KDF whole. X7: the AEAD seal and open authenticate the same associated data on every path. X8: the decrypted buffer is handed to the parser and to nothing else."
 	r.Rule = "one obligation per clause; the closure scan counts functions scanned; non-trivial = a concrete call site or slice was resolved; X6: one obligation per copy() on the encrypt/decrypt path"
 	defer c16Copies(p, r)
 	r.Trusted = []string{"go-i2p/crypto (kdf, ed25519 blinding, chacha20poly1305), go.step.sm x25519", "go/ssa, VTA call graph"}
@@ -265,6 +265,7 @@ func C16(p *an.Prog, r *an.Report) {
 		r.Fail("C16: anchor DecryptInnerData not found")
 	}
 	c16Layout(p, r)
+	c16PlaintextUntouched(p, r)
 
 	// X5
 	if fn := p.Func("encrypted_leaseset.VerifyBlindedSignature"); fn != nil {
@@ -598,4 +599,93 @@ func c16Copies(p *an.Prog, r *an.Report) {
 	if n < 3 {
 		r.Fail("C16.X6: only %d copy() calls found on the encrypt/decrypt path (expected at least 3)", n)
 	}
+}
+
+// c16PlaintextUntouched (X8): the buffer that comes out of the authenticated decryption is handed
+// to the parser and to nothing else. The parsed LeaseSet2 may keep pointing into that buffer (the
+// options mapping keeps sub-slices of its input by design, C08's exemption), so anything that
+// writes the buffer afterwards — a deferred wipe, a reuse as scratch space — changes the value that
+// was just returned, and decrypt(encrypt(x)) no longer has x's bytes. Allowed uses: len(), logging,
+// and being passed (possibly re-sliced) to one library call.
+func c16PlaintextUntouched(p *an.Prog, r *an.Report) {
+	top := p.Func("encrypted_leaseset.(*EncryptedLeaseSet).DecryptInnerData")
+	if top == nil {
+		r.Fail("C16.X8: anchor DecryptInnerData not found")
+		return
+	}
+	isOpen := func(c ssa.CallInstruction) bool {
+		f := c.Common().StaticCallee()
+		return f != nil && f.Name() == "Decrypt" && strings.Contains(an.FnPkgPath(f), "chacha20poly1305")
+	}
+	chs := callChains(p, top, isOpen, nil, 4)
+	if len(chs) != 1 || len(chs[0]) == 0 {
+		r.Ob("C16.X8", "plaintext-untouched", p.FnPos(top), an.Undecided, "could not locate the single AEAD open call")
+		return
+	}
+	// the plaintext as seen by the function nearest the top that receives it from the call chain
+	first, ok := chs[0][0].(*ssa.Call)
+	if !ok {
+		r.Ob("C16.X8", "plaintext-untouched", p.FnPos(top), an.Undecided, "the decryption is not reached through a plain call")
+		return
+	}
+	var plain ssa.Value
+	if first.Common().Signature().Results().Len() == 1 {
+		plain = first
+	} else if first.Referrers() != nil {
+		for _, ref := range *first.Referrers() {
+			if ex, ok := ref.(*ssa.Extract); ok && ex.Index == 0 {
+				plain = ex
+			}
+		}
+	}
+	if plain == nil || !isByteSliceType(plain.Type()) {
+		r.Ob("C16.X8", "plaintext-untouched", p.Pos(first.Pos()), an.Undecided, "the decrypted plaintext value was not found")
+		return
+	}
+	var bad []string
+	passed := 0
+	var visit func(v ssa.Value, d int)
+	visit = func(v ssa.Value, d int) {
+		if d > 4 || v.Referrers() == nil {
+			return
+		}
+		for _, ref := range *v.Referrers() {
+			if an.IsLogPlumbing(ref) {
+				continue
+			}
+			switch x := ref.(type) {
+			case *ssa.DebugRef:
+			case *ssa.Slice:
+				visit(x, d+1)
+			case *ssa.Phi:
+				visit(x, d+1)
+			case *ssa.Call:
+				if bi, ok := x.Call.Value.(*ssa.Builtin); ok {
+					if bi.Name() == "len" || bi.Name() == "cap" {
+						continue
+					}
+					bad = append(bad, fmt.Sprintf("builtin %s at %s", bi.Name(), p.Pos(x.Pos())))
+					continue
+				}
+				if callee := x.Call.StaticCallee(); callee != nil && an.InLib(callee) {
+					passed++
+					continue
+				}
+				bad = append(bad, fmt.Sprintf("passed to %s at %s", x.Call.Value.Name(), p.Pos(x.Pos())))
+			case *ssa.MakeInterface:
+				// logging fields
+				visit(x, d+1)
+			case *ssa.Return:
+			default:
+				bad = append(bad, fmt.Sprintf("%T at %s", ref, p.Pos(ref.Pos())))
+			}
+		}
+	}
+	visit(plain, 0)
+	if passed > 1 {
+		bad = append(bad, fmt.Sprintf("handed to %d library calls (only the parser may receive it)", passed))
+	}
+	sort.Strings(bad)
+	r.Check(len(bad) == 0 && passed == 1, "C16.X8", "plaintext-untouched", p.Pos(first.Pos()),
+		"the decrypted buffer is handed to the parser and to nothing else (a later write would change the LeaseSet2 just returned, which may point into it)", bad...)
 }
